@@ -633,6 +633,8 @@ pub fn script_sites() -> Vec<u8> {
         SITE_EV0 + Ev::BinMigrated as u8,
         SITE_EV0 + Ev::Treeified as u8,
         SITE_EV0 + Ev::ResizeStarted as u8,
+        SITE_EV0 + Ev::Retire as u8,
+        SITE_EV0 + Ev::Retire as u8,
     ]
 }
 
@@ -645,6 +647,31 @@ pub fn random_script(rng: &mut Rng, nthreads: usize) -> Strategy {
         let site = if rng.chance(1, 4) { None } else { Some(*rng.pick(&sites)) };
         segs.push(Seg { thread, site, nth: rng.range(1, 5) as u32 });
     }
+    Strategy::Script { segs, cur: 0, hits: 0 }
+}
+
+/// Reclamation race: pause a thread right after its n-th retirement (the object may still be
+/// reachable if the code retired it too early), let another thread run up to its m-th pointer
+/// load (it pins a guard and may pick the object up), let the first one finish - it releases its
+/// guard, which is when seize frees what it retired - then let the other one continue and touch
+/// what it holds.
+pub fn retire_race_script(rng: &mut Rng, nthreads: usize) -> Strategy {
+    use flurry::verif::Ev;
+    let retire = SITE_EV0 + Ev::Retire as u8;
+    let a = rng.usize(nthreads.max(1)) as u8;
+    let mut b = rng.usize(nthreads.max(1)) as u8;
+    if b == a {
+        b = (a + 1) % nthreads.max(1) as u8;
+    }
+    let mut segs = Vec::new();
+    if rng.chance(1, 2) {
+        // let the reader get somewhere first (it may or may not be pinned at the retirement)
+        segs.push(Seg { thread: b, site: Some(*rng.pick(&[SITE_OPEND, SITE_OPSTART, 0u8])), nth: rng.range(1, 6) as u32 });
+    }
+    segs.push(Seg { thread: a, site: Some(retire), nth: rng.range(1, 8) as u32 });
+    segs.push(Seg { thread: b, site: Some(0), nth: rng.range(1, 14) as u32 });
+    segs.push(Seg { thread: a, site: None, nth: 1 });
+    segs.push(Seg { thread: b, site: None, nth: 1 });
     Strategy::Script { segs, cur: 0, hits: 0 }
 }
 
